@@ -771,24 +771,24 @@ theorem binop_ok (sc : Bool) (op : BinOp) (l r : Operand) (ol : OperandOk l) (or
 theorem Qual.union_self (q : Qual) : q.union q = q := by
   cases q; simp [Qual.union]
 
-theorem cond_ok (sc : Bool) (c l r : Operand) (hc : c.constval = none) (ol : OperandOk l) (or' : OperandOk r)
+theorem cond_ok (sc : Bool) (c l r : Operand) (hsc : c.ty.isScalar = true) (hc : c.constval = none) (ol : OperandOk l) (or' : OperandOk r)
     (t : Ty) (h : condOk sc l r t = true) : okOptT (condType sc c l r) (condOk sc l r) = true := by
   by_cases ha : arithOk sc l r t = true
   · obtain ⟨x, h1, h2⟩ := binop_arith sc .add l r ol or' t ha
     have hs := arithOk_shapes ha
-    simp [condType, condRes, hs.1, hs.2, h1, hc, okOptT, condOk, h2]
+    simp [condType, hsc, condRes, hs.1, hs.2, h1, hc, okOptT, condOk, h2]
   · simp only [condOk, ha, Bool.false_or] at h
     have hna : ∀ t', l.ty.isArith = false ∨ r.ty.isArith = false → arithOk sc l r t' = false :=
       fun t' hh => arithOk_false_of_ptr hh
     cases hl : l.ty <;> cases hr : r.ty <;>
       simp [hl, hr, Ty.isStructUnion, Ty.isPtr] at h <;>
-      (try (simp [condType, condRes, hl, hr, hc, Ty.isArith, Ty.isPtr, okOptT, condOk, Ty.isStructUnion, h]; done))
+      (try (simp [condType, hsc, condRes, hl, hr, hc, Ty.isArith, Ty.isPtr, okOptT, condOk, Ty.isStructUnion, h]; done))
     rename_i ql lb qr rb
     have hA : ∀ t', arithOk sc l r t' = false := fun t' => hna t' (Or.inl (by simp [hl, Ty.isArith]))
     have hrefl : compatible lb lb = true := by rw [spec_compatible_eq]; exact compat_refl' lb
     by_cases heq : ql = qr ∧ lb = rb
     · obtain ⟨rfl, rfl⟩ := heq
-      simp [condType, condRes, hl, hr, hc, Ty.isArith, Ty.isPtr, okOptT]
+      simp [condType, hsc, condRes, hl, hr, hc, Ty.isArith, Ty.isPtr, okOptT]
       cases hn1 : l.nullconst <;> cases hn2 : r.nullconst <;>
         simp [condOk, hl, hr, hn1, hn2, hA, Ty.isStructUnion, Ty.isPtr, Qual.union_self, composite, hrefl]
       simp [hn1, hn2] at h
@@ -797,7 +797,7 @@ theorem cond_ok (sc : Bool) (c l r : Operand) (hc : c.constval = none) (ol : Ope
       · simp [hv]
     · cases hn1 : l.nullconst <;> cases hn2 : r.nullconst <;>
         simp [hn1, hn2] at h <;>
-        simp [condType, condRes, hl, hr, hc, Ty.isArith, Ty.isPtr, okOptT, heq, hn1, hn2] <;>
+        simp [condType, hsc, condRes, hl, hr, hc, Ty.isArith, Ty.isPtr, okOptT, heq, hn1, hn2] <;>
         (try (simp [condOk, hl, hr, hn1, hn2, hA, Ty.isStructUnion, Ty.isPtr]; done))
       rcases h with ⟨⟨⟨hv1, hv2⟩, hcmp⟩, _⟩ | ⟨⟨⟨hv, hf1⟩, hf2⟩, _⟩
       · have hcmp' : typecompatible lb rb = true := by rw [← spec_compatible_eq]; exact hcmp
@@ -813,12 +813,14 @@ theorem cond_const_arith (sc : Bool) (c l r : Operand) (ol : OperandOk l) (or' :
   cases hr : r.ty <;> simp [hr, Ty.isArith] at h2
   rename_i a b
   obtain ⟨x, hx, _⟩ := commonreal_some sc l r a b hl hr ol or'
+  cases hs : c.ty.isScalar
+  · simp [condType, hs]
   cases hc : c.constval with
-  | none => simp [condType, condRes, hc]
+  | none => simp [condType, hs, condRes, hc]
   | some v =>
     have e1 := exprconvert_ty_arith l a x hl
     have e2 := exprconvert_ty_arith r b x hr
-    cases v <;> simp [condType, condRes, hl, hr, Ty.isArith, hx, hc, exprconvert_ty_arith _ x x e1, exprconvert_ty_arith _ x x e2]
+    cases v <;> simp [condType, hs, condRes, hl, hr, Ty.isArith, hx, hc, exprconvert_ty_arith _ x x e1, exprconvert_ty_arith _ x x e2]
 
 /-! ### uniqueness of the operator result type -/
 
